@@ -1381,3 +1381,84 @@ def b_nc_flag(tier, rnd):
 @battery("nc_only")
 def b_nc_only(tier, rnd):
     return {"rule": "42 containers as in 'nc_flag'", "cases": [(nc,) for nc in _nc_pool(rnd)]}
+
+
+def _distinct_ncs(rnd):
+    from mingus.containers.note import Note
+    from mingus.containers.note_container import NoteContainer
+    out = []
+    for st in ([], ["C"], ["C", "E", "G"], ["Bb", "D#", "F##"], [["B", 3], ["C", 4]], [["Cb", 4], ["B#", 4]], ["Ebb", "G", "Bbb", "Db"]):
+        nc = NoteContainer()
+        nc.notes = [Note(x, 4) if isinstance(x, str) else Note(x[0], x[1]) for x in st]
+        out.append(nc)
+    return out
+
+
+@battery("nc_transpose")
+def b_nc_transpose(tier, rnd):
+    import copy
+    shs = [a + d for a in ("", "b", "#", "bb", "##") for d in "1234567"]
+    return {"rule": "7 containers of 0..4 distinct notes (plain, accidentals, B/C boundary, enharmonic twins) x 35 shorthands x "
+                    "up/down", "cases": [(copy.deepcopy(nc), sh, up) for nc in _distinct_ncs(rnd) for sh in shs for up in (True, False)]}
+
+
+@battery("nc_only_distinct")
+def b_nc_only_distinct(tier, rnd):
+    return {"rule": "7 containers of 0..4 distinct notes", "cases": [(nc,) for nc in _distinct_ncs(rnd)]}
+
+
+def _lift_bars(rnd):
+    from mingus.containers.bar import Bar
+    out = []
+    for fill in ([], ["C"], [None], ["C", None, "Em"], [None, None], ["G7", "C", "F", "Dm"], ["C", "C"]):
+        b = Bar("C", (0, 0))
+        for x in fill:
+            if x is None:
+                b.place_rest(4)
+            else:
+                from mingus.containers.note_container import NoteContainer
+                b.place_notes(NoteContainer().from_chord(x), 4)
+        out.append(b)
+    return out
+
+
+@battery("bar_lift_tr")
+def b_bar_lift_tr(tier, rnd):
+    import copy
+    shs = [a + d for a in ("", "b", "#") for d in "1234567"]
+    return {"rule": "7 bars (empty, notes, rests, mixed, repeated chord) x 21 shorthands x up/down",
+            "cases": [(copy.deepcopy(b), sh, up) for b in _lift_bars(rnd) for sh in shs for up in (True, False)]}
+
+
+@battery("bar_lift")
+def b_bar_lift(tier, rnd):
+    return {"rule": "7 bars (empty, notes, rests, mixed, repeated chord)", "cases": [(b,) for b in _lift_bars(rnd)]}
+
+
+def _lift_tracks(rnd):
+    import copy
+    from mingus.containers.track import Track
+    bars = _lift_bars(rnd)
+    out = []
+    for idx in ([], [1], [2], [1, 3], [3, 3], [0, 5, 1], [1, 1]):
+        t = Track()
+        t.bars = [copy.deepcopy(bars[i]) for i in idx]
+        out.append(t)
+    same = Track()
+    b = copy.deepcopy(bars[3])
+    same.bars = [b, copy.deepcopy(bars[1])]
+    out.append(same)
+    return out
+
+
+@battery("track_lift_tr")
+def b_track_lift_tr(tier, rnd):
+    import copy
+    shs = [a + d for a in ("", "b", "#") for d in "1234567"]
+    return {"rule": "8 tracks of 0..3 bars x 21 shorthands x up/down",
+            "cases": [(copy.deepcopy(t), sh, up) for t in _lift_tracks(rnd) for sh in shs for up in (True, False)]}
+
+
+@battery("track_lift")
+def b_track_lift(tier, rnd):
+    return {"rule": "8 tracks of 0..3 bars", "cases": [(t,) for t in _lift_tracks(rnd)]}
